@@ -227,7 +227,13 @@ func exploreMain(p *Property) {
 		r := simrt.NewRand(seed)
 		cfg, pr := p.Gen(r, *fTier)
 		cfg.Prop = p.ID
+		t0 := time.Now()
 		ep := runEpisode(p, cfg, pr, seed, nil, false)
+		if ms := int(time.Since(t0) / time.Millisecond); ms > sum.Extra["slowest_episode_ms"] {
+			sum.Extra["slowest_episode_ms"] = ms
+			sum.Extra["slowest_episode_steps"] = int(ep.Res.Steps)
+			sum.Extra["slowest_episode_subs"] = len(pr.Subs)
+		}
 		stop := account(p, sum, fingers, ep, seed)
 		if stop {
 			break
@@ -522,9 +528,9 @@ func minimise(p *Property, ep *Episode, seed uint64, clause string) *Episode {
 		try(c, best.Prog, best.Res.Tape)
 	}
 	// drop whole tasks, then ops (chunks of decreasing size)
-	for changed := true; changed && budget > 0; {
+	for changed := true; changed && budget > 0 && time.Now().Before(deadline); {
 		changed = false
-		for ti := 0; ti < len(best.Prog.Tasks); ti++ {
+		for ti := 0; ti < len(best.Prog.Tasks) && time.Now().Before(deadline); ti++ {
 			if len(best.Prog.Tasks[ti]) == 0 {
 				continue
 			}
@@ -535,8 +541,8 @@ func minimise(p *Property, ep *Episode, seed uint64, clause string) *Episode {
 			}
 		}
 		for ti := 0; ti < len(best.Prog.Tasks); ti++ {
-			for sz := len(best.Prog.Tasks[ti]); sz >= 1; sz /= 2 {
-				for at := 0; at+sz <= len(best.Prog.Tasks[ti]); {
+			for sz := len(best.Prog.Tasks[ti]); sz >= 1 && time.Now().Before(deadline); sz /= 2 {
+				for at := 0; at+sz <= len(best.Prog.Tasks[ti]) && time.Now().Before(deadline); {
 					q := cloneProg(best.Prog)
 					q.Tasks[ti] = append(append([]Op(nil), q.Tasks[ti][:at]...), q.Tasks[ti][at+sz:]...)
 					if try(best.Cfg, q, best.Res.Tape) {
@@ -550,8 +556,8 @@ func minimise(p *Property, ep *Episode, seed uint64, clause string) *Episode {
 	}
 	// schedule: zero chunks of the tape (stay on the current task / no fault)
 	tape := append([]uint32(nil), best.Res.Tape...)
-	for sz := len(tape); sz >= 1 && budget > 0; sz /= 2 {
-		for at := 0; at+sz <= len(tape) && budget > 0; at += sz {
+	for sz := len(tape); sz >= 1 && budget > 0 && time.Now().Before(deadline); sz /= 2 {
+		for at := 0; at+sz <= len(tape) && budget > 0 && time.Now().Before(deadline); at += sz {
 			nz := false
 			for _, x := range tape[at : at+sz] {
 				if x != 0 {
